@@ -206,6 +206,12 @@ type treeW struct {
 }
 
 func (w *treeW) violate(prop, sig, format string, args ...any) {
+	if prop == "C03" && w.r.Focus != "C03" {
+		// The structure oracle does not feed the reference model: when another property is being
+		// checked a structural defect must not end the run (as a sibling's violation would), or the
+		// wrong answers it leads to would never be observed and attributed to that property.
+		return
+	}
 	w.r.Violate(prop, sig, format, args...)
 }
 
